@@ -134,6 +134,11 @@ func TestVerif_C04_LayerMachine(t *testing.T) {
 					if sp.Key && sp.Start {
 						sp.VP9P = false
 					}
+					if codec == "video/VP8" && !sp.Start {
+						// partition-aligned packetisation: a packet in the middle of a frame may begin a later partition
+						sp.VP8PartID = uint8(rapid.IntRange(0, 7).Draw(t, "partition"))
+						sp.VP8PartStart = rapid.Bool().Draw(t, "partitionStart")
+					}
 					sp.Marker = sp.End && rapid.Bool().Draw(t, "marker")
 					if codec == "video/VP8" {
 						sp.Marker = sp.End
